@@ -55,11 +55,12 @@ class Deriv:
 
 C7 = ['x', 'y', 'z', 'vx', 'vy', 'vz', 'm']
 
-def setup(dom, ctx, N, grav, order):
+def setup(dom, ctx, N, grav, order, na=None, tpt=0):
     I = new_interp(dom, ctx); I.concrete_env = True
     L = build.layout(); sim = Sim(I)
     for i in range(N): sim.add(m=1.0)
     sim.set('gravity', L.enumerators['REB_GRAVITY_' + grav])
+    if na is not None: sim.set('N_active', na); sim.set('testparticle_type', tpt)
     ia = I.call('@reb_simulation_add_variation_1st_order', [sim.ptr, 0xffffffff])
     ib = ic = None
     if order == 2:
@@ -77,9 +78,9 @@ def setup(dom, ctx, N, grav, order):
 
 def run_force(u):
     rep = Report(); N, grav, order = u['N'], u['gravity'], u['order']
-    label = "force loops %s N=%d order=%d " % (grav, N, order)
+    label = "force loops %s N=%d order=%d%s " % (grav, N, order, (' N_active=%d testparticle_type=%d' % (u['na'], u.get('tpt', 0))) if u.get('na') is not None else '')
     dom = Real(); ctx = PathCtx()
-    I, sim, V, G, ia, ib, ic = setup(dom, ctx, N, grav, order)
+    I, sim, V, G, ia, ib, ic = setup(dom, ctx, N, grav, order, u.get('na'), u.get('tpt', 0))
     I.call('@reb_calculate_acceleration', [sim.ptr])
     I.call('@reb_calculate_acceleration_var', [sim.ptr])
     rep.paths += 1; rep.add_interp(I)
@@ -133,6 +134,7 @@ def native_fd(u, vals):
         ns = nat().create()
         for i in range(N): ns.add(m=1.0)
         ns.set('gravity', L.enumerators['REB_GRAVITY_' + u['gravity']]); ns.set('G', vals['G'])
+        if u.get('na') is not None: ns.set('N_active', u['na']); ns.set('testparticle_type', u.get('tpt', 0))
         for i in range(N):
             for c in ('x', 'y', 'z', 'm'): ns.particle(i).set(c, vals['r%s%d' % (c, i)] + shift(i, c))
         ns.call('reb_calculate_acceleration')
@@ -140,6 +142,7 @@ def native_fd(u, vals):
     ns = nat().create()
     for i in range(N): ns.add(m=1.0)
     ns.set('gravity', L.enumerators['REB_GRAVITY_' + u['gravity']]); ns.set('G', vals['G'])
+    if u.get('na') is not None: ns.set('N_active', u['na']); ns.set('testparticle_type', u.get('tpt', 0))
     ia = ns.call('reb_simulation_add_variation_1st_order', ctypes.c_int(-1), restype=ctypes.c_int)
     tags = [('r', 0), ('a', ia)]
     if u['order'] == 2:
@@ -161,7 +164,11 @@ def native_fd(u, vals):
         p = real_acc(lambda i, c: e * d('a')(i, c)); m = real_acc(lambda i, c: -e * d('a')(i, c))
         fd = [[(p[i][k] - m[i][k]) / (2 * e) for k in range(3)] for i in range(N)]
     else:
-        return False, "second-order counterexamples are not replayed natively"
+        va = max(abs(vals[k]) for k in vals if k[0] == 'a') + 1e-300; vb = max(abs(vals[k]) for k in vals if k[0] == 'b') + 1e-300
+        h2 = 1e-3 * scale; ea, eb = h2 / va, h2 / vb
+        def f(sa, sb): return real_acc(lambda i, c: sa * ea * d('a')(i, c) + sb * eb * d('b')(i, c) + sa * sb * ea * eb * d('c')(i, c))
+        pp, pm, mp, mm = f(1, 1), f(1, -1), f(-1, 1), f(-1, -1)
+        fd = [[(pp[i][k] - pm[i][k] - mp[i][k] + mm[i][k]) / (4 * ea * eb) for k in range(3)] for i in range(N)]
     worst = 0.0; big = max(abs(x) for r_ in fd for x in r_) + max(abs(x) for r_ in got for x in r_) + 1e-300
     for i in range(N):
         for k in range(3): worst = max(worst, abs(fd[i][k] - got[i][k]))
@@ -178,6 +185,7 @@ def native_var(u):
     ns = nat().create()
     for i in range(N): ns.add(m=1.0)
     ns.set('gravity', L.enumerators['REB_GRAVITY_' + u['gravity']])
+    if u.get('na') is not None: ns.set('N_active', u['na']); ns.set('testparticle_type', u.get('tpt', 0))
     ia = ns.call('reb_simulation_add_variation_1st_order', ctypes.c_int(-1), restype=ctypes.c_int)
     if u['order'] == 2:
         ib = ns.call('reb_simulation_add_variation_1st_order', ctypes.c_int(-1), restype=ctypes.c_int)
@@ -191,6 +199,7 @@ def native_var(u):
     dom = Conc(); I = new_interp(dom); I.mem.on_uninit = 'zero'; sim = Sim(I)
     for i in range(N): sim.add(m=1.0)
     sim.set('gravity', L.enumerators['REB_GRAVITY_' + u['gravity']])
+    if u.get('na') is not None: sim.set('N_active', u['na']); sim.set('testparticle_type', u.get('tpt', 0))
     ia = I.call('@reb_simulation_add_variation_1st_order', [sim.ptr, 0xffffffff])
     if u['order'] == 2:
         ib = I.call('@reb_simulation_add_variation_1st_order', [sim.ptr, 0xffffffff]); ic = I.call('@reb_simulation_add_variation_2nd_order', [sim.ptr, 0xffffffff, ia, ib])
@@ -240,12 +249,15 @@ def main():
     t0 = time.time()
     build.module(); build.layout(); build.build_native()
     us = [dict(what='force', gravity='BASIC', N=2, order=1), dict(what='force', gravity='COMPENSATED', N=2, order=1), dict(what='force', gravity='BASIC', N=2, order=2, t_ms=30000, ext=True)]
+    # test particles (N_active < N): active-active, active-testparticle loops and the testparticle_type=1 back-reaction
+    us += [dict(what='force', gravity='BASIC', N=2, order=1, na=1, tpt=0), dict(what='force', gravity='BASIC', N=2, order=1, na=1, tpt=1), dict(what='force', gravity='BASIC', N=2, order=2, na=1, tpt=0, t_ms=30000, ext=True)]
+    if tier == 'thorough': us.append(dict(what='force', gravity='BASIC', N=3, order=1, na=2, tpt=0, t_ms=120000, ext=True))
     if tier == 'thorough': us += [dict(what='force', gravity='BASIC', N=3, order=1, t_ms=60000, ext=True), dict(what='force', gravity='BASIC', N=3, order=2, t_ms=120000, ext=True)]
     rep = run_units(us, worker)
     code = finish(PID, tier, rep, t0,
         bounds=dict(real_particles='2' if tier == 'quick' else '2..3', orders=[1, 2], gravity=['BASIC', 'COMPENSATED']),
         assumptions=['real arithmetic; no coincident particles', 'differentiation rules d inv(b) = -inv(b)^2 db, d sqrt(A) = dA/(2 sqrt(A)) (the only non-ring atoms in the force terms)'],
-        outside=['the integrators\' tangent maps (WHFast Kepler step derivatives, IAS15/BS propagation): agreement with finite differences over tens of orbits', 'the 65 orbital-element derivative constructors of derivatives.c', 'test-particle variations, gravity_ignore_terms != 0', 'automatic rescaling (reb_simulation_rescale_var)', 'MEGNO -> 2 and Lyapunov -> 0 on regular orbits (long-run numerical statements)'],
+        outside=['the integrators\' tangent maps (WHFast Kepler step derivatives, IAS15/BS propagation): agreement with finite differences over tens of orbits', 'the 65 orbital-element derivative constructors of derivatives.c', 'test-particle variations (var_config.testparticle >= 0), gravity_ignore_terms != 0', 'automatic rescaling (reb_simulation_rescale_var)', 'MEGNO -> 2 and Lyapunov -> 0 on regular orbits (long-run numerical statements)'],
         domain_note='REAL + symbolic differentiation; z3 NRA with inv/sqrt atoms')
     sys.exit(code)
 
